@@ -310,11 +310,11 @@ func genMethodAndParams(t *rapid.T) (string, *string) {
 	case mk <= 8:
 		method = "T." + basicMethodNames[mk]
 	case mk == 9:
-		method = rapid.SampledFrom([]string{"alias.add", "alias.missing", "T.Echo"}).Draw(t, "alias")
+		method = rapid.SampledFrom([]string{"alias.add", "alias.missing", "T.Echo", "größe.加", "tab\tname", strings.Repeat("long", 80)}).Draw(t, "alias")
 	case mk == 10:
 		method = rapid.SampledFrom([]string{"xrpc.cancel", "xrpc.ch.val", "xrpc.ch.close"}).Draw(t, "internal")
 	default:
-		method = rapid.SampledFrom([]string{"T.Missing", "t.add", "Add", "T.", "", "U.Add", "T.add", "T.Add ", "rpc.discover"}).Draw(t, "unknown")
+		method = rapid.SampledFrom([]string{"T.Missing", "t.add", "Add", "T.", "", "U.Add", "T.add", "T.Add ", "rpc.discover", "T.Größe", "T.\u0001x", "T.加", strings.Repeat("T.VeryLongMethodName", 20), "T.Add\n"}).Draw(t, "unknown")
 	}
 	name, known := resolveBasic(method)
 	pk := rapid.IntRange(0, 9).Draw(t, "pkind")
@@ -591,6 +591,12 @@ func TestC09(t *testing.T) {
 					run(t, c09Case{Transport: "inproc", Body: "[" + fill(kinds[i], n) + "," + fill(kinds[j], n+1) + "," + fill(kinds[k], n+2) + "]"})
 				}
 			}
+		}
+		for _, m := range []string{"größe.加", "tab\tname", strings.Repeat("long", 80), "T.Größe", "T.\u0001x", strings.Repeat("T.VeryLongMethodName", 20)} {
+			for _, tr := range []string{"inproc", "http"} {
+				run(t, c09Case{Transport: tr, Body: `{"jsonrpc":"2.0","id":7,"method":` + string(mustJSON(m)) + `,"params":[1,2]}`})
+			}
+			run(t, c09Case{Transport: "ws", Frames: []string{`{"jsonrpc":"2.0","id":8,"method":` + string(mustJSON(m)) + `,"params":[1,2]}`}})
 		}
 		for _, b := range []string{"", " ", "[]", "[ ]", "{", "[", "}", "nul", `{"jsonrpc":"2.0","id":1,"method":"T.Add","params":[1,2]`, "[1]", "[1,2]", "5", `"x"`, "null", "{}", "[{}]", "[null]", "[[]]"} {
 			run(t, c09Case{Transport: "inproc", Body: b})
